@@ -132,25 +132,40 @@ def run_generator(text, name, env=None, features=None, extra_args=None, timeout=
     return GenResult(r.returncode == 0 and rs != "", rs, r.stdout, r.returncode, crashed)
 
 
+_helpers = {}
+
+
+def build_helper(name, what=""):
+    """Build engines/<name> (a small crate with a path dependency on /repo/...) against the current REPO.
+    With the default /repo the target dir persists under /verif/engines/<name>/target; with VERIF_REPO set the
+    crate is copied to the scratch dir and its dependency paths are rewritten."""
+    if name in _helpers:
+        return _helpers[name]
+    src = os.path.join(VERIF, "engines", name)
+    if REPO == "/repo":
+        d = src
+    else:
+        d = os.path.join(workdir(), "helper-" + name)
+        shutil.copytree(src, d, ignore=shutil.ignore_patterns("target"), dirs_exist_ok=True)
+        t = open(os.path.join(d, "Cargo.toml")).read().replace('path = "/repo/', 'path = "%s/' % REPO)
+        open(os.path.join(d, "Cargo.toml"), "w").write(t)
+    shutil.copy(os.path.join(REPO, "Cargo.lock"), os.path.join(d, "Cargo.lock"))
+    t0 = time.time()
+    r = subprocess.run(["cargo", "build", "--offline"], cwd=d, env=env_with({"RUSTFLAGS": "-Awarnings"}), stdout=subprocess.PIPE, stderr=subprocess.STDOUT, text=True)
+    if r.returncode != 0:
+        sys.stdout.write(r.stdout[-4000:])
+        raise Inconclusive("cannot build engines/%s against %s" % (name, REPO))
+    log("[build] %s %sbuilt against %s in %.1fs" % (name, what, REPO, time.time() - t0))
+    _helpers[name] = os.path.join(d, "target", "debug", name)
+    return _helpers[name]
+
+
 _gendrv_bin = None
 
 
 def build_gendrv():
-    """engines/gendrv: tiny binary over the generator's *library* API (process_dir), built against
-    /repo's current working tree; target dir persists under /verif/engines/gendrv/target."""
-    global _gendrv_bin
-    if _gendrv_bin:
-        return _gendrv_bin
-    d = os.path.join(VERIF, "engines", "gendrv")
-    shutil.copy(os.path.join(REPO, "Cargo.lock"), os.path.join(d, "Cargo.lock"))
-    t0 = time.time()
-    r = subprocess.run(["cargo", "build", "--offline"], cwd=d, env=env_with(), stdout=subprocess.PIPE, stderr=subprocess.STDOUT, text=True)
-    if r.returncode != 0:
-        sys.stdout.write(r.stdout[-4000:])
-        raise Inconclusive("cannot build engines/gendrv against %s" % REPO)
-    _gendrv_bin = os.path.join(d, "target", "debug", "gendrv")
-    log("[build] gendrv (library API driver) built in %.1fs" % (time.time() - t0))
-    return _gendrv_bin
+    """engines/gendrv: tiny binary over the generator's *library* API (process_dir)."""
+    return build_helper("gendrv", "(library API driver) ")
 
 
 def run_generator_api(text, name, env=None, features=None, timeout=300):
